@@ -5,7 +5,7 @@ from props._fa_common import TRUSTED, ASSUMPTIONS, TECHNIQUE
 
 PROP = "C06"
 LEVEL = "proof"
-THEOREMS = {"Properties.C06": ["C06_regex_automaton", "C06_to_regex_model", "C06_round_trip_model"]}
+THEOREMS = {"Properties.C06": ["C06_regex_automaton", "C06_to_regex_model", "C06_round_trip_model", "C06_round_trip_code_path"]}
 LEVEL_TEXT = ("Proof + correspondence: the state-elimination algorithm of EpsilonNFA.to_regex is modelled in Gallina on expression trees (fresh start state "
               "for several start states, one run per final state, removal of every other state with in.(loop)*.out, the closing two-state formula, the "
               "union over final states) and proved to denote exactly the language of the automaton, for every well-formed epsilon-NFA "
